@@ -879,6 +879,8 @@ func (e *Enc) encodeBlockEntry(b *ssa.BasicBlock) {
 		if _, isPtr := types.Unalias(phi.Type()).Underlying().(*types.Pointer); isPtr {
 			e.locs[phi] = nil
 			delete(e.locs, phi)
+			// memory-model typing invariant: pointer values held in variables denote allocated cells
+			r.assume(fmt.Sprintf("(and (<= 0 %s) (< %s %s))", c, c, e.getNextRef()))
 		}
 	}
 	// implicit invariants: nextRef monotone; heap frame for pre-existing cells
